@@ -3,6 +3,7 @@ package main
 import (
 	_ "embed"
 	"fmt"
+	"go/types"
 	"sort"
 	"strings"
 
@@ -78,7 +79,12 @@ func isNewHelper(g *ssa.Function) bool {
 	if v, ok := newHelperMemo[g]; ok {
 		return v
 	}
-	r := len(g.Blocks) > 0 && g.Synthetic == "" && IsOwn(g) && IsProd(g) && len(knownFuncsTxt) > 100 && !knownFunc(FuncKey(g))
+	// an instantiation of a generic function stands for the generic function
+	key, plain := FuncKey(g), g.Synthetic == ""
+	if o := g.Origin(); o != nil && o != g {
+		key, plain = FuncKey(o), o.Synthetic == ""
+	}
+	r := len(g.Blocks) > 0 && plain && IsOwn(g) && IsProd(g) && len(knownFuncsTxt) > 100 && !knownFunc(key)
 	if r && g.Parent() != nil {
 		// a function literal counts only when it is called on the spot (func(){…}()), or handed
 		// straight to a new helper that calls it synchronously (withLock(func(){…})); never
@@ -306,6 +312,16 @@ func liftFact(root, from *ssa.Function, f Fact, conv bool) Fact {
 		f.L, f.R = liftTerm(root, from, f.L, conv), liftTerm(root, from, f.R, conv)
 	} else {
 		f.B = liftTerm(root, from, f.B, conv)
+		f = renormFact(f)
+	}
+	return f
+}
+
+// renormFact: a boolean fact whose term turned into a comparison (a call of a predicate
+// parameter resolved to the literal bound to it) is read as that comparison.
+func renormFact(f Fact) Fact {
+	if !f.IsCmp && f.B != nil && (f.B.Op == "binop" || f.B.Op == "unop") {
+		return factOf(f.B, f.Truth)
 	}
 	return f
 }
@@ -335,6 +351,41 @@ func (b *termBuilder) inlineCallTerm(c *ssa.Call, d int) *Term {
 	if errIdx >= 0 {
 		gf = factsOfMode(g, b.keepConv)
 	}
+	// the comma-ok idiom: a return handing back `false` as its last result and zero values for
+	// all others is the "nothing found" exit, whose values are not alternatives either
+	okIdx := -1
+	for k := n - 1; k >= 0 && n >= 2; k-- {
+		if bt, isBasic := rets[0].Results[k].Type().Underlying().(*types.Basic); isBasic && bt.Kind() == types.Bool && k != errIdx {
+			okIdx = k
+			break
+		}
+	}
+	notFound := func(r *ssa.Return) bool {
+		if okIdx < 0 {
+			return false
+		}
+		for k, v := range r.Results {
+			cst, isC := v.(*ssa.Const)
+			if !isC {
+				return false
+			}
+			switch {
+			case k == okIdx:
+				if cst.Value == nil || cst.Value.ExactString() != "false" {
+					return false
+				}
+			case k == errIdx:
+				if cst.Value != nil {
+					return false
+				}
+			default:
+				if cst.Value != nil && cst.Value.ExactString() != "0" && cst.Value.ExactString() != `""` && cst.Value.ExactString() != "false" {
+					return false
+				}
+			}
+		}
+		return true
+	}
 	for i := 0; i < n; i++ {
 		var alts []*Term
 		seen := map[string]bool{}
@@ -342,6 +393,9 @@ func (b *termBuilder) inlineCallTerm(c *ssa.Call, d int) *Term {
 			// a value result is only looked at when the helper did not fail: what a
 			// failing return hands back beside its error (nil, 0) is not an alternative
 			if errIdx >= 0 && i != errIdx && len(rets) > 1 && classifyErrValue(gf, r.Results[errIdx], r.Block(), 0) == RetErr {
+				continue
+			}
+			if i != okIdx && i != errIdx && len(rets) > 1 && notFound(r) {
 				continue
 			}
 			sub := newTB()
@@ -424,24 +478,50 @@ func tailHelper(r *ssa.Return) *ssa.Function {
 
 // helperReturnFacts: the facts that hold at every return of new helper g whose result k
 // may have the wanted value (want: "nil", "true", "false"), in g's vocabulary.
+// resCon: result K of a helper call is known to be Want ("nil", "true", "false").
+type resCon struct {
+	K    int
+	Want string
+}
+
 func helperReturnFacts(g *ssa.Function, k int, want string, depth int, conv bool) []Fact {
+	return helperReturnFactsC(g, k, want, nil, depth, conv)
+}
+
+// helperReturnFactsC: as helperReturnFacts, restricted to the returns that are also compatible
+// with what is known about other results of the same call (err == nil and found == true …).
+func helperReturnFactsC(g *ssa.Function, k int, want string, also []resCon, depth int, conv bool) []Fact {
 	if depth > maxHelperDepth {
 		return nil
 	}
 	gf := factsOfMode(g, conv)
+	mayBe := func(r *ssa.Return, k int, want string) bool {
+		if k >= len(r.Results) {
+			return false
+		}
+		v := r.Results[k]
+		switch want {
+		case "nil":
+			return classifyErrValue(gf, v, r.Block(), 0) != RetErr
+		case "non-nil":
+			return classifyErrValue(gf, v, r.Block(), 0) != RetNil
+		case "true", "false":
+			if c, ok := v.(*ssa.Const); ok && c.Value != nil {
+				return c.Value.ExactString() == want
+			}
+		}
+		return true
+	}
 	var common map[string]Fact
 	for _, r := range Returns1(g) {
 		if k >= len(r.Results) {
 			return nil
 		}
 		v := r.Results[k]
-		may := true
-		switch want {
-		case "nil":
-			may = classifyErrValue(gf, v, r.Block(), 0) != RetErr
-		case "true", "false":
-			if c, ok := v.(*ssa.Const); ok && c.Value != nil {
-				may = c.Value.ExactString() == want
+		may := mayBe(r, k, want)
+		for _, c := range also {
+			if !mayBe(r, c.K, c.Want) {
+				may = false
 			}
 		}
 		if !may {
@@ -517,7 +597,9 @@ func helperReturnFacts(g *ssa.Function, k int, want string, depth int, conv bool
 
 // edgeHelperFacts: facts contributed by a branch on the result of a new helper
 // (err == nil, ok, !ok), in the vocabulary of the branching function.
-func edgeHelperFacts(e Edge, conv bool) []Fact {
+// helperTest: the branch e tests result k of a call (to anything), which on e is `want`
+// ("nil" / "non-nil" / "true" / "false"); call == nil when it does not.
+func helperTest(e Edge) (call *ssa.Call, k int, want string) {
 	cond := e.If.Cond
 	truth := e.Truth
 	for {
@@ -538,9 +620,6 @@ func edgeHelperFacts(e Edge, conv bool) []Fact {
 		}
 		return nil, 0
 	}
-	var call *ssa.Call
-	var k int
-	want := ""
 	if bo, ok := cond.(*ssa.BinOp); ok {
 		isNil := func(v ssa.Value) bool { c, ok := v.(*ssa.Const); return ok && c.Value == nil }
 		x, y := bo.X, bo.Y
@@ -548,23 +627,39 @@ func edgeHelperFacts(e Edge, conv bool) []Fact {
 			x, y = y, x
 		}
 		if !isNil(y) {
-			return nil
+			return nil, 0, ""
 		}
 		eq := bo.Op.String() == "=="
 		if bo.Op.String() != "==" && bo.Op.String() != "!=" {
-			return nil
-		}
-		if eq != truth {
-			return nil // the non-nil edge carries nothing
+			return nil, 0, ""
 		}
 		call, k = resultOf(x)
 		want = "nil"
+		if eq != truth {
+			want = "non-nil"
+		}
 	} else {
 		call, k = resultOf(cond)
 		want = fmt.Sprint(truth)
 	}
 	if call == nil {
-		return nil
+		return nil, 0, ""
+	}
+	return call, k, want
+}
+
+// edgeHelperFacts: facts contributed by a branch on the result of a new helper
+// (err == nil, ok, !ok), in the vocabulary of the branching function.
+func edgeHelperFacts(e Edge, conv bool) []Fact {
+	return edgeHelperFactsC(e, nil, conv)
+}
+
+// edgeHelperFactsC: the same, given what dominating branches already established about other
+// results of the same call.
+func edgeHelperFactsC(e Edge, also []resCon, conv bool) []Fact {
+	call, k, want := helperTest(e)
+	if call == nil || (want == "non-nil" && len(also) == 0) {
+		return nil // the non-nil edge alone carries nothing
 	}
 	g := newHelperCallee(call)
 	if g == nil {
@@ -572,13 +667,17 @@ func edgeHelperFacts(e Edge, conv bool) []Fact {
 	}
 	var out []Fact
 	args := argTerms(newTBMode(conv), call)
-	for _, f := range helperReturnFacts(g, k, want, 0, conv) {
+	for _, f := range helperReturnFactsC(g, k, want, also, 0, conv) {
 		if f.IsCmp {
 			f.L, f.R = substParams(f.L, args), substParams(f.R, args)
 		} else {
 			f.B = substParams(f.B, args)
+			f = renormFact(f)
 		}
 		out = append(out, f)
+		if m, ok := f.Mirror(); ok && !f.IsCmp == false {
+			out = append(out, m)
+		}
 	}
 	return out
 }
@@ -802,12 +901,87 @@ func substAlong(ch []*ssa.Call, target *ssa.Function, t *Term, conv bool) *Term 
 		if i+1 < len(ch) {
 			next = ch[i+1].Parent()
 		}
-		if calleeOf(ch[i]) != next {
+		if g := calleeOf(ch[i]); g != next {
+			// a function literal run by the helper this call invokes: the literal's own
+			// parameters are what the helper passes when it calls it (read with this call's
+			// arguments for the helper's parameters); what it captured is its creator's already
+			if g != nil && next != nil && next.Parent() != nil {
+				t = substLiteralParams(t, next, g, ch[i], conv)
+			}
 			continue
 		}
 		t = substParams(t, argTerms(newTBMode(conv), ch[i]))
 	}
 	return t
+}
+
+// substLiteralParams: lit is handed to helper h at call c and h calls that parameter exactly
+// once; lit's parameters in t are replaced by the arguments of that inner call, themselves
+// written with c's arguments for h's parameters. Only parameters carrying lit's own parameter
+// names are touched (the creator's parameters print the same way).
+func substLiteralParams(t *Term, lit, h *ssa.Function, c *ssa.Call, conv bool) *Term {
+	k := -1
+	for i, a := range c.Common().Args {
+		switch x := a.(type) {
+		case *ssa.MakeClosure:
+			if x.Fn == ssa.Value(lit) {
+				k = i
+			}
+		case *ssa.Function:
+			if x == lit {
+				k = i
+			}
+		}
+	}
+	if k < 0 || k >= len(h.Params) {
+		return t
+	}
+	var inner *ssa.Call
+	for _, b := range h.Blocks {
+		for _, in := range b.Instrs {
+			if dc, ok := in.(*ssa.Call); ok && dc.Common().Value == ssa.Value(h.Params[k]) {
+				if inner != nil {
+					return t
+				}
+				inner = dc
+			}
+		}
+	}
+	if inner == nil || len(inner.Common().Args) != len(lit.Params) {
+		return t
+	}
+	outer := argTerms(newTBMode(conv), c)
+	args := argTerms(newTBMode(conv), inner)
+	names := map[string]int{}
+	for i, prm := range lit.Params {
+		args[i] = substParams(args[i], outer)
+		names[prm.Name()] = i
+	}
+	var rec func(x *Term) *Term
+	rec = func(x *Term) *Term {
+		if x == nil {
+			return nil
+		}
+		if x.Op == "param" {
+			var i int
+			if _, err := fmt.Sscanf(x.Sym, "p%d", &i); err == nil {
+				if j, own := names[x.Owner]; own && j == i && i < len(args) {
+					return args[i]
+				}
+			}
+			return x
+		}
+		if x.Op == "free" || len(x.Args) == 0 {
+			return x // captured values belong to the creator
+		}
+		cp := *x
+		cp.Args = make([]*Term, len(x.Args))
+		for i, a := range x.Args {
+			cp.Args[i] = rec(a)
+		}
+		return &cp
+	}
+	return rec(t)
 }
 
 // knownRootsOf: the known functions from which new helper fn is reached (through new helpers only).
@@ -831,6 +1005,45 @@ func knownRootsOf(fn *ssa.Function) []*ssa.Function {
 	rec(fn, 0)
 	if len(out) == 1 && out[0] == fn {
 		return nil
+	}
+	return out
+}
+
+// deepFacts: the branch facts of root and of its new helpers, the latter rewritten into root's
+// vocabulary (for rules that look for a comparison wherever it is made).
+func deepFacts(root *ssa.Function) []Fact {
+	var out []Fact
+	for _, hf := range funcAndHelpers(root) {
+		hff := factsOf(hf)
+		for _, f := range hff.Facts {
+			if hf != root {
+				f = liftFact(root, hf, f, false)
+			}
+			out = append(out, f)
+		}
+	}
+	return out
+}
+
+// DeepEdge: a branch edge of root or of one of its new helpers, with its fact (and the fact of
+// the opposite edge) in root's vocabulary; FF are the facts of the function owning the edge.
+type DeepEdge struct {
+	E        Edge
+	F, Other Fact
+	FF       *FuncFacts
+}
+
+func deepEdges(root *ssa.Function) []DeepEdge {
+	var out []DeepEdge
+	for _, hf := range funcAndHelpers(root) {
+		hff := factsOf(hf)
+		for i, e := range hff.Edges {
+			f, o := hff.Facts[i], hff.Facts[i^1]
+			if hf != root {
+				f, o = liftFact(root, hf, f, false), liftFact(root, hf, o, false)
+			}
+			out = append(out, DeepEdge{e, f, o, hff})
+		}
 	}
 	return out
 }
